@@ -7,4 +7,5 @@ mkdir -p .build evidence replays work
 (cd lean && lake build 2>&1 | tail -3)
 (cd harness && cp /repo/go.sum go.sum && go build -o ../.build/harness . )
 (cd extract && go build -o ../.build/extract . )
+(cd xlate && go build -o ../.build/xlate . )
 echo setup-ok
